@@ -20,10 +20,14 @@ ROOT = '/verif'
 PY = ROOT + '/.venv/bin/python'
 XH = ROOT + '/.venv/bin/crosshair'
 PLUGIN = ROOT + '/xh/plugin.py'
-WORK = ROOT + '/work'
-REPLAYS = ROOT + '/replays'
+# VERIF_OUT relocates scratch / evidence / replays and VERIF_REPO points the analysis at another source tree: both are
+# only for trying seeded changes in scratch worktrees while other checks run; the registered commands use neither.
+OUT = os.environ.get('VERIF_OUT') or ROOT
+WORK = OUT + '/work'
+REPLAYS = OUT + '/replays'
+EVIDENCE = OUT + '/evidence'
 ENV = dict(os.environ, PYTHONDONTWRITEBYTECODE='1', PYTHONHASHSEED='0', S3TRANSFER_VERIF='1',
-           PYTHONPATH=ROOT)
+           PYTHONPATH=(os.environ['VERIF_REPO'] + ':' + ROOT) if os.environ.get('VERIF_REPO') else ROOT)
 
 
 def ensure_env():
@@ -397,8 +401,8 @@ def main(prop, mod, tier='quick', only=None, extra_evidence=None, pre_results=No
     wall = time.time() - t0
     ev = build_evidence(prop, tier, hmod, records, n_ob, n_dis, n_eval, n_distinct, wall, len(violations),
                         extra_evidence, known_hit, layout_missing)
-    os.makedirs(ROOT + '/evidence', exist_ok=True)
-    with open(ROOT + '/evidence/%s.json' % prop, 'w') as f:
+    os.makedirs(EVIDENCE, exist_ok=True)
+    with open(EVIDENCE + '/%s.json' % prop, 'w') as f:
         json.dump(ev, f, indent=1, default=str)
     summary = {}
     for r in records:
